@@ -25,7 +25,7 @@ FLOORS = {"sources": 100, "kernel_calls": 2500, "hit_counters_checked": 100000, 
           "expression_limits": 60, "kernels_inside_included_file": 40,
           "signed_index_arithmetic_checked": 50000, "directives_after_a_comment": 60,
           "files_included_by_two_directives": 20, "targets_not_named_by_a_directive_with_missing_file": 60,
-          "blocks_with_smaller_bound_checked": 200, "cuda_block_size_changed_between_calls": 40}
+          "blocks_with_smaller_bound_checked": 200, "annotated_extra_headers_checked": 2000, "cuda_block_size_changed_between_calls": 40}
 FLOORS.update({"target:" + t: 300 for t in TARGETS})
 RULE = ("generated kernel sources from the annotation vocabulary (1-3 vectorize_over/end_vectorize blocks, "
         "limits that are identifiers or blank-free expressions, an earlier block possibly bounded by n/2 while the launch size is n, the whole kernel optionally inside an included file, an include directive for other targets whose file is missing, the CUDA block size lowered between two calls with the same n, "
@@ -120,6 +120,13 @@ def gen_source(rng, kname, folder, nested=False):
 
     for _ in range(rng.randint(0, 2)):
         ctx_line(False)
+    # a per-target configuration macro that arrives through `extra_headers` (one annotated #define per target)
+    meta["headers"] = [f"#define XV_HDR_{uid} {BIT[t_]} //only_for_context {t_}" for t_ in TARGETS]
+    # two instantiations of one "template" file (the same Path listed twice, re-parameterised by #define in between)
+    plain(f"  flags[6] = tpla_{uid}() * 100 + tplb_{uid}();")
+    plain(f"#ifdef XV_HDR_{uid}")
+    plain(f"  flags[7] = XV_HDR_{uid};")
+    plain("#endif")
     for k, ctxs in meta["incs"]:
         plain(f"#ifdef XV_INC_{uid}_{k}")
         plain(f"  flags[{4 + k}] = XV_INC_{uid}_{k};")
@@ -183,6 +190,10 @@ def run_case(w, rng):
     text, meta = gen_source(rng, uid, folder, nested)
     srcfile = Path(folder) / f"{uid}.h"
     srcfile.write_text(text)
+    tpl = Path(folder) / f"tpl_{uid}.h"
+    tpl.write_text("/*gpufun*/ int XV_T_NAME(void){ return XV_T_VAL; }\n")
+    all_sources = [f"#define XV_T_NAME tpla_{uid}\n#define XV_T_VAL 11\n", tpl,
+                   f"#undef XV_T_NAME\n#undef XV_T_VAL\n#define XV_T_NAME tplb_{uid}\n#define XV_T_VAL 22\n", tpl, srcfile]
     block = rng.choice([1, 2, 7, 256])
     info = dict(source=text, block=block, nested=nested)
     seen = set()
@@ -213,16 +224,16 @@ def run_case(w, rng):
             try:
                 if target.startswith("cpu"):
                     ctx = rng.choice(_S["cpu"][target])
-                    ctx.add_kernels(sources=[srcfile], kernels=kernel_desc(uid, meta["nblocks"]),
+                    ctx.add_kernels(sources=list(all_sources), kernels=kernel_desc(uid, meta["nblocks"]), extra_headers=list(meta["headers"]),
                                     extra_compile_args=("-O0", "-w"), extra_link_args=())
                     spec = ctx.kernels[uid].specialized_source
                 elif target == "cuda":
                     ctx = xo.ContextCupy(default_block_size=block)
-                    ctx.add_kernels(sources=[srcfile], kernels=kernel_desc(uid, meta["nblocks"]))
+                    ctx.add_kernels(sources=list(all_sources), kernels=kernel_desc(uid, meta["nblocks"]), extra_headers=list(meta["headers"]))
                     spec = fakegpu.recorded[-1][1]
                 else:
                     ctx = xo.ContextPyopencl(patch_pyopencl_array=False, minimum_alignment=1)
-                    ctx.add_kernels(sources=[srcfile], kernels=kernel_desc(uid, meta["nblocks"]))
+                    ctx.add_kernels(sources=list(all_sources), kernels=kernel_desc(uid, meta["nblocks"]), extra_headers=list(meta["headers"]))
                     spec = fakegpu.recorded[-1][1]
                 built = True
             except Exception as e:
@@ -295,6 +306,11 @@ def run_case(w, rng):
                     viol(f"multi-context-line-wrong|{target}", f"{case}: flags[1] {int(flags[1])}, expected {want1}")
                 if ran and int(flags[3]) != 8:
                     viol(f"unannotated-text-changed-meaning|{target}", f"{case}: sizeof of a string literal holding a one-word block comment is {int(flags[3])}, not 8")
+                if ran and int(flags[6]) != 1122:
+                    viol(f"source-listed-twice-not-read-twice|{target}", f"{case}: two instantiations of one template file give {int(flags[6])}, expected 1122")
+                w.count("annotated_extra_headers_checked")
+                if int(flags[7]) != (BIT[target] if ran else 0):
+                    viol(f"annotated-extra-header-wrong|{target}", f"{case}: the macro defined per target in extra_headers is {int(flags[7])}, expected {BIT[target] if ran else 0}")
                 for k, ctxs in meta["incs"]:
                     wantk = (40 + k) if (target in ctxs and ran) else 0
                     if int(flags[4 + k]) != wantk:
